@@ -35,7 +35,11 @@ lane() {
             out=$(VERIF_ROOT="$L" "$L/target/release/verif" "$id" "$TIER" 2>"$L/err.log"); rc=$?
             t1=$(date +%s.%N)
             sig=$(grep -m1 '^signature:' "$L/err.log" | sed 's/^signature: *//; s/"/\\"/g')
-            if [ $rc -eq 1 ]; then caught="$caught $id"; fi
+            if [ $rc -eq 1 ]; then
+                caught="$caught $id"
+                mkdir -p "/verif/work/mutants/$name"
+                r=$(ls "$L/replays"/*.json 2>/dev/null | head -1); [ -n "$r" ] && cp "$r" "/verif/work/mutants/$name/$id.json"
+            fi
             js="$js{\"check\":\"$id\",\"exit\":$rc,\"wall_s\":$(echo "$t1 - $t0" | bc),\"signature\":\"$sig\"},"
         done
         printf '{"seed":"%s","tier":"%s","results":[%s]}\n' "$name" "$TIER" "${js%,}" > "/verif/work/mutants/$name.json"
